@@ -31,7 +31,7 @@ ASSUMPTIONS = ["same computation twice is compared bitwise (gradient at each ste
                "reference loop under the same torch seed) - one CPU thread, deterministic algorithms",
                "lazy models: parameter equality with the reference loop is not asserted (the materialisation pass consumes randomness); "
                "the step-local gradient check covers them"]
-PROBES = ["earlier_fit_aborted", "mode_switched_below_the_hedger", "epochs_0", "epochs_ge2", "n_times_ge2", "validation_off", "optimizer_instance", "optimizer_class", "lazy_model", "dropout_model",
+PROBES = ["optimizer_holds_a_foreign_parameter", "earlier_fit_aborted", "mode_switched_below_the_hedger", "epochs_0", "epochs_ge2", "n_times_ge2", "validation_off", "optimizer_instance", "optimizer_class", "lazy_model", "dropout_model",
           "prev_hedge", "H2", "init_state", "ambient_no_grad", "entered_in_eval_mode", "second_fit_same_hedger", "param_equal_reference",
           "step_local_grad", "stale_grad_at_entry", "same_optimizer_class_again"]
 
@@ -141,7 +141,7 @@ def generate(rng):
         big_scale = init is not None and init[0] > 10
         ops.append({"op": "fit", "n_epochs": (rng.choice([0, 1, 1]) if (big_scale and oname in ("SGD", "SGDm")) else rng.choice([0, 1, 2, 2, 3])), "n_paths": rng.npaths([1, 2, 3, 6]), "n_times": rng.choice([1, 1, 2, 3]),
                     "validation": rng.chance(0.7), "optimizer": oname, "as_instance": rng.chance(0.4),
-                    "instance_params": rng.choice(["model", "hedger"]), "init_state": init, "hedge": hedge,
+                    "instance_params": rng.choice(["model", "hedger"]), "foreign_param": rng.chance(0.5), "init_state": init, "hedge": hedge,
                     "ambient": rng.choice([None, None, "no_grad", "enable_grad"]), "torch_seed": rng.seed31(),
                     "default_optimizer": rng.chance(0.1)})
     return {"profile": "c15", "env": {"default_dtype": "float32"}, "world": world, "ops": ops}
@@ -292,10 +292,19 @@ def _fit_op(world, program, op, h, d, p0, mspec, hspec, stats, hist, seq):
     holder[0] = events
     RecOpt.constructed.clear()
     supplied = None
+    extra = None
     if op.get("default_optimizer"):
         opt_arg = None
     elif op["as_instance"] and not lazy:
         plist = list(h.model.parameters()) if op["instance_params"] == "model" else list(h.parameters())
+        extra = None
+        if op.get("foreign_param") and plist:
+            # the user's optimiser also holds a parameter that is not the hedger's (another model, a trainable feature), and
+            # that parameter carries a stale gradient: fit() zeroes gradients *through the optimiser*, so it never moves
+            extra = torch.nn.Parameter(torch.ones(2, dtype=plist[0].dtype))
+            extra.grad = torch.full_like(extra, 0.5)
+            plist = plist + [extra]
+            stats.probe("optimizer_holds_a_foreign_parameter")
         supplied = RecOpt(plist)
         RecOpt.constructed.clear()
         opt_arg = supplied
@@ -332,6 +341,12 @@ def _fit_op(world, program, op, h, d, p0, mspec, hspec, stats, hist, seq):
         torch.set_grad_enabled(True)
         del p0.simulate
         rec.events = None
+    if extra is not None:
+        stats.checks += 1
+        if not bool((extra.detach() == 1).all()):
+            raise Violation(ID, "foreign_parameter_moved", "fit", {
+                "value": extra.detach(), "note": "a parameter held by the supplied optimiser but not by the hedger was stepped on its stale "
+                "gradient: fit() did not zero the gradients through the optimiser", "optimizer": op["optimizer"], "epochs": op["n_epochs"]}, seq)
     if op.get("ambient") == "no_grad":
         stats.fault("F5_ambient_grad_flip")
         stats.probe("ambient_no_grad")
@@ -461,7 +476,8 @@ def _fit_op(world, program, op, h, d, p0, mspec, hspec, stats, hist, seq):
             stats.checks += 1
             expect = torch.stack(vals).mean(dim=0).item() if n_times > 1 else vals[0].item()
             got = history[e]
-            if not (got == expect or (got != got and expect != expect) or abs(got - expect) <= 1e-6 * max(1.0, abs(expect))):
+            htol = 64 * torch.finfo(vals[0].dtype).eps   # the returned float is the loss that was computed, not a rounded copy of it
+            if not (got == expect or (got != got and expect != expect) or abs(got - expect) <= htol * max(1.0, abs(expect))):
                 raise Violation(ID, "history_value", site, dict(cfg, epoch=e, returned=got, recomputed=expect), seq)
     # ---- parameters change only inside step() of the optimiser
     if used is not None:
@@ -581,7 +597,7 @@ def _reference_loop(world, op, h, d, p0, ref_inner, ref_crit, final_params, hist
                 raise Violation(ID, "parameters_differ_from_reference_loop", "fit", dict(cfg, parameter=j, fit=a, reference=b), seq)
     if validation:
         for e, (x, y) in enumerate(zip(history, ref_hist)):
-            if not (x == y or (x != x and y != y) or abs(x - y) <= 1e-6 * max(1.0, abs(y))):
+            if not (x == y or (x != x and y != y) or abs(x - y) <= 256 * torch.finfo(final_params[0].dtype if final_params else torch.float32).eps * max(1.0, abs(y))):
                 raise Violation(ID, "history_differs_from_reference_loop", "fit", dict(cfg, epoch=e, fit=x, reference=y), seq)
 
 
